@@ -483,7 +483,7 @@ func (c *Ctx) withCallees(root *ssa.Function, depth int, visit func(owner *ssa.F
 				return
 			}
 			callee := ci.Common().StaticCallee()
-			if callee == nil || callee.Blocks == nil || seen[callee] || !core.InModule(callee) {
+			if callee == nil || callee.Blocks == nil || seen[callee] || !core.InModule(callee) || c.noDescend[callee] {
 				return
 			}
 			seen[callee] = true
@@ -516,4 +516,91 @@ func (c *Ctx) callsDeep(fn *ssa.Function, target *types.Func, depth int) bool {
 		}
 	})
 	return found
+}
+
+// liftToCallers: check holds for the instruction in fn, or - when the instruction sits in an
+// extracted helper - for every call site of fn in its callers (at most two levels up). check builds
+// its guards from the function it is given.
+func (c *Ctx) liftToCallers(fn *ssa.Function, at ssa.Instruction, depth int, check func(f *ssa.Function, at ssa.Instruction) bool) bool {
+	if check(fn, at) {
+		return true
+	}
+	if depth >= 2 {
+		return false
+	}
+	callers := c.callersOf(fn)
+	if len(callers) == 0 {
+		return false
+	}
+	for _, cs := range callers {
+		if _, isCall := cs.Site.(*ssa.Call); !isCall {
+			return false
+		}
+		if !c.liftToCallers(cs.Caller, cs.Site, depth+1, check) {
+			return false
+		}
+	}
+	return true
+}
+
+// getterCallers: the functions of package pkg that obtain the result of the store method m, either
+// by calling it or through a module wrapper whose result #0 is that result (nil constants are
+// neutral); wrappers themselves are not listed. For each function the obtaining call sites.
+func (c *Ctx) getterCallers(m *types.Func, pkg string) map[*ssa.Function][]*ssa.Call {
+	wrappers := map[*ssa.Function]bool{}
+	isGetCall := func(call *ssa.Call) bool {
+		if core.CalleeOf(&call.Call) == m {
+			return true
+		}
+		sc := call.Call.StaticCallee()
+		return sc != nil && wrappers[sc]
+	}
+	// fixpoint over wrappers (two rounds are enough for wrapper-of-wrapper)
+	for round := 0; round < 2; round++ {
+		for _, fn := range c.P.ModFuncs {
+			if !core.InPkg(fn, pkg) || wrappers[fn] || fn.Signature.Results().Len() == 0 {
+				continue
+			}
+			var gets []*ssa.Call
+			core.AllInstrs(fn, func(in ssa.Instruction) {
+				if call, ok := in.(*ssa.Call); ok && isGetCall(call) {
+					gets = append(gets, call)
+				}
+			})
+			if len(gets) != 1 {
+				continue
+			}
+			isRes := errResultOf(gets[0], 0)
+			good, n := true, 0
+			core.AllInstrs(fn, func(in ssa.Instruction) {
+				ret, ok := in.(*ssa.Return)
+				if !ok {
+					return
+				}
+				n++
+				v := ret.Results[0]
+				if k, isK := v.(*ssa.Const); isK && k.Value == nil {
+					return
+				}
+				if !core.Derives(v, isRes, true) {
+					good = false
+				}
+			})
+			if good && n > 0 && types.Identical(fn.Signature.Results().At(0).Type(), m.Type().(*types.Signature).Results().At(0).Type()) {
+				wrappers[fn] = true
+			}
+		}
+	}
+	out := map[*ssa.Function][]*ssa.Call{}
+	for _, fn := range c.P.ModFuncs {
+		if !core.InPkg(fn, pkg) || wrappers[fn] {
+			continue
+		}
+		core.AllInstrs(fn, func(in ssa.Instruction) {
+			if call, ok := in.(*ssa.Call); ok && isGetCall(call) {
+				out[fn] = append(out[fn], call)
+			}
+		})
+	}
+	return out
 }
